@@ -525,10 +525,16 @@ func (e *End) Read(b []byte) (n int, err error) {
 	if lim < 1 {
 		lim = 1
 	}
-	// incoming-side faults
+	// incoming-side faults (the plan may have been installed while this read was waiting)
+	e.mu.Lock()
+	fault = e.fault
+	e.mu.Unlock()
 	if fault != nil && !fault.Kind.IsWrite() && fault.Kind != FaultNone && !fault.fired {
 		if e.rOff+int64(lim) > fault.Offset {
 			lim = int(fault.Offset - e.rOff)
+			if lim < 0 {
+				lim = 0
+			}
 			e.mu.Lock()
 			fault.fired = true
 			e.mu.Unlock()
